@@ -191,7 +191,7 @@ func resolveAnchors(p *Prog) *Anchors {
 
 	a.RunOnce = a.method(a.TController, "RunOnce")
 	a.RunForever = a.method(a.TController, "RunForever")
-	a.DryMode = a.method(a.TController, "dryMode")
+	a.DryMode = a.dryModeMethod()
 	a.ScaleUp = a.method(a.TController, "ScaleUp")
 	a.ScaleDown = a.method(a.TController, "ScaleDown")
 	a.Lock = a.method(a.TLock, "lock")
@@ -586,4 +586,44 @@ func cmdCensus(args []string) int {
 		}
 	}
 	return 0
+}
+
+// dryModeMethod finds the dry-mode predicate structurally: the loop-free bool method of
+// *Controller with a *NodeGroupState parameter that reads a DryMode field (by name first).
+func (a *Anchors) dryModeMethod() *ssa.Function {
+	if a.TController == nil {
+		return nil
+	}
+	for _, typ := range []types.Type{types.NewPointer(a.TController)} {
+		ms := a.p.SSA.MethodSets.MethodSet(typ)
+		var cands []*ssa.Function
+		for i := 0; i < ms.Len(); i++ {
+			obj, ok := ms.At(i).Obj().(*types.Func)
+			if !ok {
+				continue
+			}
+			f := a.p.SSA.FuncValue(obj)
+			if f == nil || f.Blocks == nil || f.Signature.Results().Len() != 1 || !isBool(f.Signature.Results().At(0).Type()) || len(f.Params) != 2 || !a.isPtrTo(f.Params[1].Type(), a.TState) || infoOf(f).hasLoop {
+				continue
+			}
+			reads := false
+			for _, b := range f.Blocks {
+				for _, in := range b.Instrs {
+					if fa, ok := in.(*ssa.FieldAddr); ok && fieldOfAddr(fa).Name() == "DryMode" {
+						reads = true
+					}
+				}
+			}
+			if reads {
+				if f.Name() == "dryMode" {
+					return f
+				}
+				cands = append(cands, f)
+			}
+		}
+		if len(cands) == 1 {
+			return cands[0]
+		}
+	}
+	return nil
 }
